@@ -84,6 +84,15 @@ func checkDoc(what, mode string, want, got []string) error {
 		if !sameDoc(want, got) {
 			return fmt.Errorf("%s: doc block %q directly above it, but Doc lines = %q", what, want, got)
 		}
+	case "blocktail":
+		// the block sits directly under a line that ends in a remark: whether the remark counts as part of the block is
+		// left open, but the block itself is this member's documentation
+		if len(want) == 1 && want[0] == "" {
+			return nil
+		}
+		if len(got) < len(want) || !sameDoc(want, got[len(got)-len(want):]) {
+			return fmt.Errorf("%s: doc block %q directly above it (under a line ending in a remark), but Doc lines = %q", what, want, got)
+		}
 	}
 	return nil
 }
